@@ -173,9 +173,11 @@ struct RecCon : ob::Constraint
         out.setZero();
         if (kind == "sphere" || kind == "spherepl")
         {
+            // like Eigen's normalized(): the zero vector stays zero (a non-finite Jacobian makes Eigen 3.4's
+            // JacobiSVD::solve read an uninitialised rank inside Constraint::project; see notes/C16.md)
             double r = std::sqrt(sumsq(x));
             for (unsigned i = 0; i < n; ++i)
-                out(0, i) = x[i] / r;
+                out(0, i) = r > 0 ? x[i] / r : 0.0;
             if (kind == "spherepl")
             {
                 out(1, 0) += -0.3;
@@ -187,10 +189,13 @@ struct RecCon : ob::Constraint
             double rho = std::sqrt(x[0] * x[0] + x[1] * x[1]);
             double a = rho - 1.0;
             double s = std::sqrt(a * a + sumsq(x, 2));
-            out(0, 0) = a * (x[0] / rho) / s;
-            out(0, 1) = a * (x[1] / rho) / s;
+            if (rho > 0 && s > 0)
+            {
+                out(0, 0) = a * (x[0] / rho) / s;
+                out(0, 1) = a * (x[1] / rho) / s;
+            }
             for (unsigned i = 2; i < n; ++i)
-                out(0, i) = x[i] / s;
+                out(0, i) = s > 0 ? x[i] / s : 0.0;
         }
         else if (kind == "plane")
             for (unsigned i = 0; i < n; ++i)
